@@ -481,6 +481,13 @@ func TestVerifC18AddGet(t *testing.T) {
 					} else {
 						orig.ID = sg.ID
 						want[sg.ID] = orig
+						// the caller goes on using (and changing) the struct it passed in
+						for i := range sg.IdentifyingFeatures.RequiredCalls {
+							sg.IdentifyingFeatures.RequiredCalls[i] = "changed-by-caller"
+						}
+						for i := range sg.Metadata.References {
+							sg.Metadata.References[i] = "changed-by-caller"
+						}
 					}
 				case "batch":
 					var ptrs []*detection.Signature
@@ -571,6 +578,32 @@ func TestVerifC18AddGet(t *testing.T) {
 					} else if sigCanon(*got) != sigCanon(want[id]) {
 						r.Violate(key+"/content-"+label, fmt.Sprintf("GetSignature(%s) content differs after %v:\n got  %s\n want %s", id, names, sigCanon(*got), sigCanon(want[id])), rp)
 						failed = true
+					} else {
+						// what a lookup hands out is the caller's: scribbling over it is not a store
+						// operation and must not change what the next lookup returns
+						scribbled := false
+						for i := range got.IdentifyingFeatures.RequiredCalls {
+							got.IdentifyingFeatures.RequiredCalls[i] = "scribbled"
+							scribbled = true
+						}
+						for i := range got.IdentifyingFeatures.StringPatterns {
+							got.IdentifyingFeatures.StringPatterns[i] = "scribbled"
+							scribbled = true
+						}
+						for i := range got.Metadata.References {
+							got.Metadata.References[i] = "scribbled"
+							scribbled = true
+						}
+						if got.IdentifyingFeatures.ControlFlow != nil {
+							got.IdentifyingFeatures.ControlFlow.HasInfiniteLoop = !got.IdentifyingFeatures.ControlFlow.HasInfiniteLoop
+							scribbled = true
+						}
+						if scribbled {
+							if again, err2 := b.get(id); err2 != nil || sigCanon(*again) != sigCanon(want[id]) {
+								r.Violate(key+"/aliased-"+label, fmt.Sprintf("after %v: modifying the slices of the signature returned by GetSignature(%s) changed what the store returns next (no store operation in between)", names, id), rp)
+								failed = true
+							}
+						}
 					}
 				}
 				// the listing (what scans iterate over) holds every current signature exactly once: no
